@@ -117,3 +117,56 @@ package interp
 //@   loop 1 index j
 //@   invariant copied: forall(k, 0, b, data[k] == old(interp.frame.data[k]))
 //@   invariant frame-unchanged: interp.frame.data == old(interp.frame.data) && interp.frame.id == old(interp.frame.id) && interp.id == old(interp.id)
+
+// Blocking channel operations in cancellable mode: the reflect.Select that blocks races the
+// frame's done channel, and the closure stops (returns nil) when that case is chosen.
+// selCases / selChosen / selCalled are ghost names bound by the model of reflect.Select.
+//@ pred isDone(c, f): c.Chan == f.done.Chan && c.Dir == f.done.Dir
+//@ lit recv calls:Select (f) (next)
+//@   props C09
+//@   opt loops = havoc
+//@   opt safety = off
+//@   opt ghost-select = true
+//@   opt opaque-calls = *
+//@   opt preserve = F_interp_frame_id, F_interp_Interpreter_id, F_interp_node_interp, F_reflect_SelectCase_Chan, F_reflect_SelectCase_Dir
+//@   requires f != nil
+//@   ensures done-raced: selCalled ==> atSelect(isDone(selCases[0], f))
+//@   ensures cancelled-stops: selCalled && selChosen == 0 ==> next == nil
+//@   canary selCalled ==> atSelect(isDone(selCases[1], f))
+
+//@ lit recv2 calls:Select (f) (next)
+//@   props C09
+//@   opt loops = havoc
+//@   opt safety = off
+//@   opt ghost-select = true
+//@   opt opaque-calls = *
+//@   opt preserve = F_interp_frame_id, F_interp_Interpreter_id, F_interp_node_interp, F_reflect_SelectCase_Chan, F_reflect_SelectCase_Dir
+//@   requires f != nil
+//@   ensures done-raced: selCalled ==> atSelect(isDone(selCases[0], f))
+//@   ensures cancelled-stops: selCalled && selChosen == 0 ==> next == nil
+
+//@ lit send calls:Select (f) (next)
+//@   props C09
+//@   opt loops = havoc
+//@   opt safety = off
+//@   opt ghost-select = true
+//@   opt opaque-calls = *
+//@   opt preserve = F_interp_frame_id, F_interp_Interpreter_id, F_interp_node_interp, F_reflect_SelectCase_Chan, F_reflect_SelectCase_Dir
+//@   requires f != nil
+//@   ensures done-raced: selCalled ==> atSelect(isDone(selCases[0], f))
+//@   ensures cancelled-stops: selCalled && selChosen == 0 ==> next == nil
+
+//@ lit rangeChan calls:Select (f) (next)
+//@   props C09
+//@   opt loops = havoc
+//@   opt safety = off
+//@   opt ghost-select = true
+//@   opt opaque-calls = *
+//@   opt preserve = F_interp_frame_id, F_interp_Interpreter_id, F_interp_node_interp, F_reflect_SelectCase_Chan, F_reflect_SelectCase_Dir
+//@   requires f != nil
+//@   ensures done-raced: selCalled && atSelect(isDone(selCases[0], f))
+//@   ensures cancelled-stops: selChosen == 0 ==> next == nil
+
+// _select: the case vector is a slice of struct values that the closure fills in a loop; the
+// slice-of-struct model of govc (elements as references) is not faithful enough to carry
+// "cases[nbClause] is f.done" through that loop, so no contract is claimed for it here.
